@@ -57,20 +57,28 @@ Theorem C04_encode_vframe : forall h rid ps body m,
 Proof. exact encode_vframe. Qed.
 Print Assumptions C04_encode_vframe.
 
+(* [unfragmented]: the frame's fragment bit is clear.  connection.reader calls packageParse.parse, i.e. unpack followed
+   by the sub-package bookkeeping (Model/Subpkg.v, C05); for unfragmented frames parse delivers exactly unpack's
+   messages (Props/C05.v C05_parse_is_run), which is what [reader_run] dispatches.  The hypothesis restricts the two
+   reader-level statements to the traffic for which [reader_run] IS the loop of the code (and which the harness's op
+   `rd` plays); it is not needed by the proof. *)
+Definition unfragmented (f : list N) : Prop := m_frag (snd (decode_ok f)) = 0.
+
 (* the reader's dispatch loop (connection.reader): however the stream is cut into reads, every frame
    is dispatched exactly once, in order - executed when its id has a registered handler, reported as
    unsupported otherwise (an unsupported id does not end the loop: what follows it in the same read
    is still dispatched), no error *)
-Theorem C04_reader_events : forall reg fs chunks, Forall vframe fs -> concat chunks = concat fs ->
+Theorem C04_reader_events : forall reg fs chunks, Forall vframe fs -> Forall unfragmented fs ->
+  concat chunks = concat fs ->
   reader_run reg [] chunks [] = (map (dispatch1 reg) (map decode_ok fs), None).
-Proof. exact reader_events. Qed.
+Proof. intros reg fs chunks Hv _. exact (reader_events reg fs chunks Hv). Qed.
 Print Assumptions C04_reader_events.
 
-Theorem C04_reader_prompt : forall reg fs chunks rest, Forall vframe fs ->
+Theorem C04_reader_prompt : forall reg fs chunks rest, Forall vframe fs -> Forall unfragmented fs ->
   concat chunks ++ rest = concat fs ->
   reader_run reg [] chunks [] =
     (map (dispatch1 reg) (map decode_ok (frames_within fs (length (concat chunks)))), None).
-Proof. exact reader_events_prompt. Qed.
+Proof. intros reg fs chunks rest Hv _. exact (reader_events_prompt reg fs chunks rest Hv). Qed.
 Print Assumptions C04_reader_prompt.
 
 (* non-vacuity: a 2013 heartbeat and a frame whose body is the two escaped bytes 7e 7d are valid
@@ -89,3 +97,17 @@ Example C04_three_ways :
   whole = bytewise /\ whole = odd /\ map (fun x => m_body (snd x)) (u_msgs whole) = [[]; [126; 125]]
   /\ u_hist whole = [] /\ u_err whole = None.
 Proof. vm_compute. repeat split; reflexivity. Qed.
+
+(* non-vacuity at the reader level: a heartbeat (registered id 2), a frame with the unregistered id 0x0003 and a
+   second heartbeat, cut inside the second frame: all three are dispatched in order, the middle one as unsupported *)
+Definition ex_unsup : list N := [126; 0; 3; 0; 0; 1; 35; 69; 103; 137; 1; 0; 2; 137; 126].
+Example C04_reader_example :
+  Forall vframe [ex_hb; ex_unsup; ex_hb] /\ Forall unfragmented [ex_hb; ex_unsup; ex_hb] /\
+  let s := ex_hb ++ ex_unsup ++ ex_hb in
+  map (fun e => match e with RExec _ m => (1, m_id m) | RUnsupported _ m => (0, m_id m) | RReissue _ m => (2, m_id m) end)
+      (fst (reader_run registered_ids [] [firstn 20 s; skipn 20 s] [])) = [(1, 2); (0, 3); (1, 2)].
+Proof.
+  split; [repeat constructor; apply vframeb_spec; vm_compute; reflexivity|].
+  split; [repeat constructor|]. vm_compute. reflexivity.
+Qed.
+
